@@ -110,6 +110,17 @@ AScaleWeights(c) ==    \* obj.weights = [c * w for w in obj.weights]
   /\ "scale_weights" \in Acts /\ obj.rat
   /\ LET W == TLCEval([i \in 1..Len(obj.P) |-> RMul(c, Weights(obj)[i])]) IN
      Step([a |-> "scale_weights", c |-> c, W |-> W], [obj EXCEPT !.P = Combine(Ctrlpts(obj), W)])
+\* pw = obj.ctrlptsw; pw[i] = pt; obj.ctrlptsw = pw : the list a getter returned is edited and assigned back
+AEditCtrlptsW(i, k) ==
+  /\ "edit_ctrlptsw" \in Acts /\ obj.rat /\ i <= Len(obj.P)
+  /\ LET pt == GenNet(Len(obj.P), CDim(obj) - 1, TRUE, 7 + k)[i] IN
+     Step([a |-> "edit_ctrlptsw", i |-> i, k |-> k, pt |-> pt], [obj EXCEPT !.P[i] = pt])
+\* cp = copy.deepcopy(obj): one of the two objects has all its weights multiplied by c and its views read, the history
+\* continues on the other one (keep = "orig" | "copy"), whose definition is that of obj: copies share no state
+AFork(c, keep) ==
+  /\ "fork" \in Acts /\ obj.rat
+  /\ LET W == TLCEval([i \in 1..Len(obj.P) |-> RMul(c, Weights(obj)[i])]) IN
+     Step([a |-> "fork", c |-> c, keep |-> keep, W |-> W, P |-> Ctrlpts(obj)], obj)
 ARead(v) ==            \* a getter is called (an action: it may populate caches in the implementation)
   /\ "read" \in Acts
   /\ Step([a |-> "read", v |-> v], obj)
